@@ -367,6 +367,10 @@ func (in *Interp) binop(op token.Token, a, b Value, operandT, resT types.Type) V
 				}
 				return st.Bool(r)
 			}
+			// finite-domain strings (enum selectors, possibly against a concrete string): case split over the alternatives
+			if r := in.enumOrdered(op, x, y); r != nil {
+				return r
+			}
 			in.fail("ordered comparison of symbolic strings")
 		}
 	case *FloatV:
